@@ -217,7 +217,7 @@ def _run(ctx, r, idx, aw, bench, w):
 			return
 		err = invariants()
 		ctx.count("invariant_checks")
-		ctx.seen(hash((idx, step)))
+		ctx.seen(hash((ctx.shard[0], idx, step)))
 		if err:
 			ctx.violation("invariant", dict(w, history = log[-14:]), what = err)
 			return
